@@ -157,7 +157,10 @@ def normPath (cwd p : Bytes) : Bytes :=
 
 def mkPEnv (w : World) (dirs : List Bytes) : PEnv :=
   { env := fun n => if n.isEmpty || n.contains c_eq then none else (w.env.find? (·.1 == n)).map (·.2),
-    fs := fun p => if p.isEmpty then none else (w.files.find? (·.1 == normPath w.cwd p)).map (fun e => (e.2.1, e.2.2)),
+    fs := fun p => if p.isEmpty then none
+      else if normPath w.cwd p == [47, 100, 101, 118, 47, 110, 117, 108, 108] then some (FileKind.dev, [])     -- /dev/null
+      else if normPath w.cwd p == [] then some (FileKind.dir, [])      -- "/"
+      else (w.files.find? (·.1 == normPath w.cwd p)).map (fun e => (e.2.1, e.2.2)),
     passwd := fun u => (w.passwd.find? (·.1 == u)).map (·.2),
     maxInc := w.maxInc, dirs := dirs }
 
